@@ -433,3 +433,29 @@ def restore_before_release(ck, tm, g, rule):
         ck.ob(rule, "drop/restore-before-release", tm.target, ok,
               "destructor path: restoring write %s the release of the trampoline" % ("precedes" if ok else "comes AFTER"), where(frees[0]))
     return n
+
+
+LOCK_RECOVERY_BENIGN = ("::into_inner", "::clear_poison", "::get_ref", "::get_mut", "::is_poisoned", "::unwrap_or_else", "::map_err",
+                        "::map", "::ok", "::as_ref", "::as_mut", "::deref", "::deref_mut")
+
+
+def lock_wrapper_cannot_panic(ck, tm, rule):
+    """Between acquiring the process-wide lock and handing out its guard - in particular on the poison-recovery path - the lock
+    wrapper performs nothing that may panic: a panic there (formatting, printing, allocation, a user callback) unwinds with the
+    guard and leaves the mutex poisoned again, for every later caller (shared by C04 R4.2 and C05 R5.1)."""
+    n = 0
+    for wfn in sorted({b["path"] for b in tm.facts.fn_bodies() for name, _, _, _ in tm.facts.callees_of(b) if is_std_lock(name)}):
+        vs = tm.try_variants(wfn) or []
+        for v in vs:
+            n += 1
+            idx = [i for i, e in enumerate(v.trace) if e.kind == "ext" and is_std_lock(e.name)]
+            after = v.trace[idx[0] + 1:] if idx else list(v.trace)
+            bad = [e for e in after if e.kind in ("ext", "summary", "indirect", "ffi", "raw_write", "raw_store", "diverge")
+                   and not e.name.endswith(LOCK_RECOVERY_BENIGN)]
+            ck.ob(rule, "%s/%s" % (short(wfn), "nothing-may-panic-while-recovering" if not bad else "may-panic-while-recovering/" + short(bad[0].name)),
+                  tm.target, not bad,
+                  "%s: after lock() this path calls %s" % (short(wfn), ", ".join(short(e.name) for e in after) or "nothing") +
+                  ("" if not bad else ": %s may panic while the freshly acquired (possibly poisoned) guard is alive; unwinding drops the guard "
+                                      "and the mutex stays poisoned for every later injector or preventer" % short(bad[0].name)),
+                  where(bad[0]) if bad else None)
+    return n
